@@ -1,6 +1,6 @@
 (* C20 dispatch: a DFA definition and a call history -> the model's answers *)
 From Coq Require Import List Arith NArith Bool.
-From AV Require Import Base.Util Base.ITree Spec.Lang Spec.FA Model.Codec Model.Count Model.Cache.
+From AV Require Import Base.Util Base.ITree Spec.Lang Spec.FA Model.Codec Model.Count Model.Cache Model.NFACache.
 Import ListNotations.
 
 (* query on the wire: [code, args...]
@@ -43,14 +43,63 @@ Definition enc_answer (a : answer) : itree :=
   | AUnit => L []
   end.
 
+(* NFA queries on the wire: [code, args...], every query names the instance (index into the list of definitions)
+   1 accepts_input [i, w] | 2 read_input_stepwise cut after n items [i, w, n] | 3 == [i, j]
+   4 DFA.from_nfa [i, minify, retain_names] | 5 eliminate_lambda [i] | 6 reverse [i] *)
+Definition dec_nquery (t : itree) : option nquery :=
+  match t with
+  | L (tc :: args) =>
+    match dec_nat tc, args with
+    | Some 1, [ti; tw] => match dec_nat ti, dec_word tw with
+                          | Some i, Some w => Some (NAccepts i w) | _, _ => None end
+    | Some 2, [ti; tw; tn] => match dec_nat ti, dec_word tw, dec_nat tn with
+                              | Some i, Some w, Some n => Some (NStepwise i w n) | _, _, _ => None end
+    | Some 3, [ti; tj] => match dec_nat ti, dec_nat tj with
+                          | Some i, Some j => Some (NEq i j) | _, _ => None end
+    | Some 4, [ti; tm; tr] => match dec_nat ti, dec_bool tm, dec_bool tr with
+                              | Some i, Some mn, Some rn => Some (NFromNfa i mn rn) | _, _, _ => None end
+    | Some 5, [ti] => option_map NElim (dec_nat ti)
+    | Some 6, [ti] => option_map NReverse (dec_nat ti)
+    | _, _ => None
+    end
+  | _ => None
+  end.
+
+(* answers: [1, bool] | [2, [sorted set...]] | [3, dfa] | [4, nfa] | [0, error code] | [9] no such instance *)
+Definition enc_nanswer (a : nanswer) : itree :=
+  match a with
+  | NABool b => L [I 1%N; Ib b]
+  | NASets l => L [I 2%N; enc_list enc_nats l]
+  | NADfa d => L [I 3%N; enc_dfa d]
+  | NANfa n => L [I 4%N; enc_nfa n]
+  | NAErr e => L [I 0%N; In_ (err_code e)]
+  | NABad => L [I 9%N]
+  end.
+
 (* op 1: [dfa (rows in the dict's iteration order), [query...]]
-         -> [valid, answers along the history on one object, answers of the stateless models] *)
+         -> [valid, answers along the history on one object, answers of the stateless models]
+   op 2: [[nfa...], [nquery...]]
+         -> [[valid...], answers along the history (one memo per instance, all empty at the start),
+             answers with every closure table computed from scratch, answers of the C01/C09/C07/C08 models,
+             the memos after the history ([] empty / [table]), which memos are filled after each query] *)
 Definition d20 (op : nat) (t : itree) : itree :=
   match op, t with
   | 1, L [tm; tq] =>
     match dec_dfa tm, dec_list dec_query tq with
     | Some m, Some qs =>
       L [Ib (valid_dfa m); enc_list enc_answer (answers (init m) qs); enc_list enc_answer (map (pure m) qs)]
+    | _, _ => bad_input
+    end
+  | 2, L [tms; tq] =>
+    match dec_list dec_nfa tms, dec_list dec_nquery tq with
+    | Some defs, Some qs =>
+      L [enc_list Ib (map valid_nfa defs);
+         enc_list enc_nanswer (nanswers defs (fresh_memos defs) qs);
+         enc_list enc_nanswer (map (npure defs) qs);
+         enc_list enc_nanswer (map (spec_answer defs) qs);
+         enc_list (enc_opt (enc_list (enc_pair In_ enc_nats))) (nrun_history defs (fresh_memos defs) qs);
+         enc_list (enc_list (fun c => Ib (match c with Some _ => true | None => false end)))
+                  (nstates defs (fresh_memos defs) qs)]
     | _, _ => bad_input
     end
   | _, _ => bad_input
